@@ -78,7 +78,11 @@ impl Root {
         let _ = self.node_update_queue.take();
         let _ = self.current_node.take();
         let _ = self.root_node.take();
-        let _ = self.nodes.take();
+        // Remove whatever is left, but keep the arena itself: a fresh arena would hand out the same
+        // keys again, and handles that survived from before (e.g. in a task that has been aborted
+        // but not yet dropped) would be taken for the new nodes.
+        let leftover: Vec<_> = self.nodes.borrow_mut().drain().collect();
+        drop(leftover);
         self.batching.set(false);
 
         // Create a new root node.
